@@ -37,4 +37,21 @@ CHECKS = {
   "ref": "DESIGN.md §5 C12",
   "note": "trusted: Lean kernel; translator for Gen/KeepAlive.lean; float arithmetic vs exact Rat on exactly representable grid values",
   "technique": "Lean 4 proof (grind over core Rat) over a decision tree translated from the source each run + grid differential"},
+ "C06": {
+  "text": "Lean theorems c06_tokenize (both terminators), c06_encoder_tokens_clean, c06_generic (any layout, all argument values), "
+          "c06_all (all 18 layouts: whole line -> id, method, exactly the encoded arguments) over the model of parse_request and the 18 "
+          "read_* functions; tied by a differential over structured requests with distinct values per slot and by running the real "
+          "_on_* closures with a scripted adapter (arguments received = values sent).",
+  "ref": "DESIGN.md §5 C06",
+  "note": "trusted: Lean kernel; Spec/Ari.lean conforming encoder (hand-written); layouts/wiring tables tied by differential only",
+  "technique": "Lean 4 proof (induction over token lists / layouts) + pure differential correspondence"},
+ "C09": {
+  "text": "Lean theorems: the decoder's error names the method; any token list shorter than the fixed fields, any wrong marker, any "
+          "non-integer / unknown mode / unknown platform in a typed fixed slot, odd list or map tails and partial table lists are rejected "
+          "(for every token list, not only mutations); a rejected request makes no adapter call and no reply (closure level). Tied by the "
+          "malformed-stream differential (the real read_* raise only the protocol error naming the method). Server-level handling is "
+          "co-simulated (see DESIGN).",
+  "ref": "DESIGN.md §5 C09",
+  "note": "trusted: Lean kernel; layouts hand-written; the decorator's catch-all is modelled and compared on every malformed input",
+  "technique": "Lean 4 proof + malformed-stream differential correspondence"},
 }
